@@ -1146,6 +1146,8 @@ class OuterVarModel(Model):
                 return [Path(st, "normal", _NameSub([z3.BoolVal(False)] * self.k, "set"))]
             if isinstance(args[0], _ScopeSet):
                 return [Path(st, "normal", args[0])]
+            if isinstance(args[0], _NameSub):
+                return [Path(st, "normal", _NameSub(args[0].bits, "set"))]
         if f.obj is None and f.attr == "list" and isinstance(args[0], _NameSub):
             # list(<a set>) has no defined order: only a list made from a list keeps the declaration order
             return [Path(st, "normal", _NameSub(args[0].bits, "list" if args[0].kind == "list" else "unordered"))]
@@ -1168,6 +1170,22 @@ class OuterVarModel(Model):
         if f.obj == "asty" and f.attr in ("Global", "Nonlocal"):
             return [Path(st, "normal", _DeclNode(f.attr, kwargs["names"]))]
         return NotImplemented
+
+    def _setop(self, op, a, b):
+        f = {ast.BitAnd: z3.And, ast.BitOr: z3.Or}.get(type(op))
+        if f is None or not isinstance(a, (_NameSub, _ScopeSet)) or not isinstance(b, (_NameSub, _ScopeSet)):
+            return NotImplemented
+        return _NameSub([f(self.mem(a, j), self.mem(b, j)) for j in range(self.k)], "set")
+
+    def binop(self, ex, st, op, a, b):
+        return self._setop(op, a, b)
+
+    def augassign(self, ex, st, node, a, b):
+        r = self._setop(node.op, a, b)
+        if r is not NotImplemented and isinstance(a, _ScopeSet):
+            # `x &= y` on a set updates it in place: here the set is a scope's own `defined` / bindings
+            st.ghost["scope_mutated"] = ast.unparse(node)
+        return r
 
     def listcomp(self, ex, st, node):
         # [name for name in X if name (not) in Y]
@@ -1192,7 +1210,8 @@ class OuterVarModel(Model):
 
         def inv(ex_, st_):
             i, d, u = cur(st_)
-            return z3.And([i >= 0, i <= m.K, z3.Or(i == 0, i < m.K)]
+            # (the frame condition is part of the invariant: an iteration that modifies a scope does not preserve it)
+            return z3.And([z3.BoolVal("scope_mutated" not in st_.ghost), i >= 0, i <= m.K, z3.Or(i == 0, i < m.K)]
                           + [d.bits[j] == m.Seen(i, j) for j in range(m.k)] + [u.bits[j] == z3.Not(m.Seen(i, j)) for j in range(m.k)])
 
         def havoc(ex_, st_):
@@ -1202,7 +1221,7 @@ class OuterVarModel(Model):
             ex_.store_name(st_, "undefined", _NameSub([ex_.fresh(z3.BoolSort(), "u") for _ in range(m.k)], "list"))
             st_.ghost["loop_head"] = i
             st_.pc.append(m.seen_step(i))          # the instance of the ghost's definition this iteration needs
-        return E.LoopInv("scope-chain invariant (defined = names bound by the scopes walked so far, undefined = the others, in order)", inv, havoc)
+        return E.LoopInv("scope-chain invariant (defined = names bound by the scopes walked so far, undefined = the others, in order; no scope modified)", inv, havoc)
 
 
 def c07_visit_outervar(chk, prefix="visit_OuterVar", concrete=None):
@@ -1251,6 +1270,9 @@ def c07_visit_outervar(chk, prefix="visit_OuterVar", concrete=None):
                 goal += [z3.Not(m.Seen(m.K - 1, j)) for j in range(k)]
             ex.oblige(f"`global` lists exactly the names no enclosing function or let binds (class bodies never count), all of them "
                       f"module-level variables; `nonlocal` lists exactly the others; both in declaration order {tag}", p.st, z3.And(goal))
+        for p in paths:
+            ex.oblige(f"frame: the scopes walked through are only read - no scope's `defined` set or bindings is modified {tag}", p.st,
+                      z3.BoolVal("scope_mutated" not in p.st.ghost))
         ex.oblige(f"vacuity: both result shapes are reachable {tag}", st, z3.BoolVal(n_ret["global"] >= 1 and n_ret["nonlocal"] >= 2))
         discharge(chk, prefix, ex, extra_models=concrete)
         chk.extra[f"visit_OuterVar_paths_k{k}"] = len(paths)
